@@ -156,6 +156,20 @@ let handle (line : string) : string =
        | Inr NValue -> "valueerror")
   | ["escape"; isb; p] -> enc_str (escape (dec_bool isb) (dec_str p))
   | ["ismagic"; isb; fl; p] -> enc_bool (is_magic (dec_bool isb) (z_of_int (int_of_string fl)) (dec_str p))
+  | ["listed"; cfgbits; sd; cur; donly; gf] ->
+      let bit i = cfgbits.[i] = '1' in
+      let cf = { g_dot = bit 0; g_follow = bit 1; g_cs = bit 2; g_mark = bit 3; g_nounique = bit 4; g_pathlib = bit 5; g_has_excl = bit 6 } in
+      let split c s = if s = "" || s = "[]" then [] else String.split_on_char c s in
+      let sdt = List.map (fun e ->
+          match String.split_on_char '=' e with
+          | [k; v] -> (dec_str k,
+                       if v = "ERR" then None else
+                       Some (List.map (fun x -> match String.split_on_char ':' x with
+                                        | [n; dd; l] -> { e_name = dec_str n; e_dir = (if dd = "E" then None else Some (dd = "1")); e_link = (l = "1") }
+                                        | _ -> failwith "ent") (split ',' v)))
+          | _ -> failwith "sd") (split ';' sd) in
+      (try enc_list enc_str (listed (fun dpath -> try List.assoc dpath sdt with Not_found -> raise Exit) cf (nat_of_int 60) (dec_str cur) (dec_bool donly) (dec_bool gf))
+       with Exit -> "oraclemiss")
   | ["glob"; cfgbits; pats; sd; lx; sm; xm] ->
       let bit i = cfgbits.[i] = '1' in
       let cf = { g_dot = bit 0; g_follow = bit 1; g_cs = bit 2; g_mark = bit 3; g_nounique = bit 4; g_pathlib = bit 5; g_has_excl = bit 6 } in
